@@ -247,12 +247,13 @@ def finish(prop, tier, seed, level, results, skipped, rule, assumptions, bounds,
         seen_sigs.add(key)
         reported.append(v)
 
-    os.makedirs(os.path.join(VERIF, 'replays'), exist_ok=True)
+    OUT = os.environ.get('VERIF_OUT', VERIF)      # mutation testing writes its evidence/replays elsewhere
+    os.makedirs(os.path.join(OUT, 'replays'), exist_ok=True)
     for hid, (k, vs) in sorted(known_hits.items()):
         print('KNOWN-FINDING: property=%s %s (%d occurrence(s) this run)' % (prop, k['what'], len(vs)))
     for v in reported[:20]:
         h = hashlib.sha1(json.dumps(v, sort_keys=True).encode()).hexdigest()[:10]
-        path = os.path.join(VERIF, 'replays', '%s-%s.json' % (prop, h))
+        path = os.path.join(OUT, 'replays', '%s-%s.json' % (prop, h))
         with open(path, 'w') as f:
             json.dump({'property': prop, 'violation': v}, f, indent=1)
         print('VIOLATION property=%s replay=%s' % (prop, path))
@@ -307,8 +308,8 @@ def finish(prop, tier, seed, level, results, skipped, rule, assumptions, bounds,
         'coverage': cov, 'assumptions': assumptions, 'wall_s': round(wall, 2),
         'violations': len(reported),
     }
-    os.makedirs(os.path.join(VERIF, 'evidence'), exist_ok=True)
-    with open(os.path.join(VERIF, 'evidence', prop + '.json'), 'w') as f:
+    os.makedirs(os.path.join(OUT, 'evidence'), exist_ok=True)
+    with open(os.path.join(OUT, 'evidence', prop + '.json'), 'w') as f:
         json.dump(ev, f, indent=1)
     print('%s %s: %d items, %d paths (%d out of bound), %d queries (%d unknown), '
           'proved %d refuted %d inconclusive %d, known %d, %.1fs -> exit %d'
